@@ -34,7 +34,7 @@ pub struct HistCase {
     /// 0 = ShapeReader with index, 1 = complete Reader (shp+shx+dbf), 2 = ShapeReader without index,
     /// 3 = ShapeReader::from_path (files on disk), 4 = Reader::from_path
     /// 5 = ShapeReader with index driven by the first half of the ops (rounded up), then handed to Reader::new with a
-    /// fresh dbase reader and driven by the rest
+    /// fresh dbase reader and driven by the rest; 6 = complete Reader around a ShapeReader WITHOUT index
     pub reader: u8,
     pub ops: Vec<Op>,
     /// 0 = files as the library writes them; 1 = the same records re-laid out as a foreign producer may: stored in
@@ -409,12 +409,13 @@ impl Prop for Histories {
             2 => "ShapeReader-noshx",
             3 => "ShapeReader::from_path",
             4 => "Reader::from_path",
+            6 => "Reader without index",
             _ => "pre-used ShapeReader handed to Reader::new",
         });
         let whole = |ops: &[Op], k: usize| format!("history {:?} (failing at op #{})", ops, k);
         match c.reader {
-            1 => {
-                let sr = ShapeReader::with_shx(Cursor::new(shp), Cursor::new(shx)).map_err(|e| Fail::new("open-error", err_str(&e)))?;
+            1 | 6 => {
+                let sr = if c.reader == 1 { ShapeReader::with_shx(Cursor::new(shp), Cursor::new(shx)) } else { ShapeReader::new(Cursor::new(shp)) }.map_err(|e| Fail::new("open-error", err_str(&e)))?;
                 let dr = dbase::Reader::new(Cursor::new(dbf)).map_err(|e| Fail::new("open-error", format!("{:?}", e)))?;
                 let mut r = Reader::new(sr, dr);
                 for (k, op) in c.ops.iter().enumerate() {
@@ -693,6 +694,10 @@ impl EnumProp for Histories {
                 // records stored in reverse order with gaps, located through the index
                 for l in 1..=len - 1 {
                     blocks.push(Block { n, equal, layout: 1, reader: 1, alphabet: a1.clone(), len: l });
+                }
+                // the complete Reader without an index: iterations only
+                for l in 1..=len + 1 {
+                    blocks.push(Block { n, equal, layout: 0, reader: 6, alphabet: a2.clone(), len: l });
                 }
                 // a ShapeReader used first, then handed to Reader::new
                 for l in 2..=len - 1 {
